@@ -65,14 +65,14 @@ func Check() *core.Check {
 		},
 		Cases: func(tier string) int {
 			if tier == "thorough" {
-				return 30000
+				return 8000
 			}
 			return 600
 		},
 		MinConclusive: func(tier string) int { return 100 },
 		NumPinned:     1 + len(pinnedProgs) + 2,
 		Binary:        "race",
-		CaseTimeoutS:  120,
+		CaseTimeoutS:  300,
 		Run:           run,
 		Post:          post,
 	}
